@@ -2,6 +2,7 @@
 //! Usage: corelib <engine>   (cases on stdin, one per line; one result line per case on stdout)
 use std::io::{self, BufRead, Write};
 
+mod cast;
 mod ns;
 pub mod parse;
 mod source;
@@ -11,6 +12,7 @@ mod asyncfilter;
 fn main() {
     let engine = std::env::args().nth(1).expect("engine");
     let f: fn(&str) -> String = match engine.as_str() {
+        "cast" => cast::run_case,
         "ns" => ns::run_case,
         "parse" => parse::run_case,
         "source" => source::run_case,
